@@ -101,10 +101,29 @@ func baseFields(name string, topo gts.Topology) seqio.GenBankFields {
 
 // makeSeq builds the real value for a record description. The storage
 // configuration (for the purity property) is chosen by "store".
+var sharedBufs = map[string][]byte{}
+
 func makeSeq(m J) gts.Sequence {
 	p := makeResidues(m)
 	ff := makeFeatures(asList(m["feats"]))
 	switch asStr(m["store"]) {
+	case "adjacent":
+		// several records of one case live side by side in ONE backing array
+		name := asStr(m["buf"])
+		buf, ok := sharedBufs[name]
+		if !ok {
+			buf = make([]byte, 256)
+			for i := range buf {
+				buf[i] = '#'
+			}
+			sharedBufs[name] = buf
+		}
+		off := asInt(m["off"])
+		copy(buf[off:], p)
+		p = buf[off : off+len(p)]
+		gg := make(gts.FeatureSlice, len(ff), len(ff)+8)
+		copy(gg, ff)
+		ff = gg
 	case "spare":
 		q := make([]byte, len(p), len(p)+64)
 		copy(q, p)
@@ -411,6 +430,7 @@ func (r *seqRunner) apply(op J) (res gts.Sequence, perr interface{}) {
 
 func (r *seqRunner) runCase(c J) {
 	r.caseID = asStr(c["id"])
+	sharedBufs = map[string][]byte{}
 	r.recs = map[string]gts.Sequence{}
 	r.order = nil
 	r.pure = asBool(c["pure"])
